@@ -119,7 +119,7 @@ def h_access(n: int, valid1: bool, valid2: bool, vok: bool, s0: int, s1: int, k:
                 reach('write-err')
 
     if ctx:
-        with a.open_array(accessmode='r+'):
+        with a.open_array():           # default mode = the handle's mode (r+)
             one(0, acc[0])
             one(1, acc[1])
             if w.open_handles() == 0:
@@ -152,6 +152,45 @@ def h_access(n: int, valid1: bool, valid2: bool, vok: bool, s0: int, s1: int, k:
     reach('end')
 
 
+def h_empty(valid: bool, vok: bool, k: int, probe: int, atom=(), ctx=False, _gate=None, _small=False):
+    """indexing an array WITHOUT elements: NumPy semantics on the empty reference array"""
+    assume(0 <= k <= BIG)
+    w = new_world()
+    put_array(D, w, '/w/a', 0, 'int16', 'little', atom)
+    a = D.array.Array('/w/a', accessmode='r+')
+
+    def body():
+        try:
+            a[np.OpaqueIndex('i', valid)] = np.OpaqueValue('v', vok)
+            err = None
+        except Exception as e:
+            err = e
+        if valid and vok:
+            if err is not None:
+                raise Violation(f'a valid assignment into an empty array raised {type(err).__name__}')
+        elif err is None:
+            raise Violation('an invalid assignment into an empty array did not raise')
+        try:
+            v = a[np.OpaqueIndex('j', valid)]
+            err = None
+        except Exception as e:
+            err = e
+        if valid and err is not None:
+            raise Violation(f'a valid read of an empty array raised {type(err).__name__}')
+        if not valid and not isinstance(err, IndexError):
+            raise Violation('an invalid read of an empty array did not raise IndexError')
+    if ctx:
+        with a.open_array():
+            body()
+    else:
+        body()
+    no_open_handles(w, 'after indexing an empty array')
+    if len(D.array.Array('/w/a')) != 0 or w.lookup('/w/a/arrayvalues.bin').size() != 0:
+        raise Violation('indexing an empty array changed it')
+    a.append(np.ndarray(dt_of('int16', 'little'), (k,) + atom, Seq.of(('in', 1), k)))
+    reach('end')
+
+
 def replay_access(cex, d):
     """Real darr vs real NumPy; opaque tokens are instantiated with concrete index expressions."""
     import os
@@ -160,6 +199,36 @@ def replay_access(cex, d):
     darr, np_ = rp.real()
     fx = dict(d.get('fixed') or {})
     fx.update(cex)
+    if (d.get('ob') or d.get('obligation')) == 'IDX-empty':
+        atom = tuple(fx.get('atom', ()))
+        probs = []
+        with rp.scratch() as tmp:
+            a = darr.create_array(tmp + '/a', shape=(0,) + atom, dtype='int16')
+            ref = np_.zeros((0,) + atom, dtype='int16')
+            for idx in ([slice(None), Ellipsis, slice(0, 0)] if fx['valid'] else [3]):
+                for val in ([1] if fx['vok'] else [np_.zeros((5,) + atom + (2,))]):
+                    def both(f):
+                        try:
+                            f(ref)
+                            r = None
+                        except Exception as e:
+                            r = type(e)
+                        try:
+                            if fx.get('ctx'):
+                                with a.open_array():
+                                    f(a)
+                            else:
+                                f(a)
+                            g = None
+                        except Exception as e:
+                            g = type(e)
+                        if (r is None) != (g is None):
+                            probs.append(f'index {idx!r}: numpy {r}, darr {g}')
+                    both(lambda x: x.__setitem__(idx, val))
+                    both(lambda x: x.__getitem__(idx))
+        if probs:
+            return {'reproduced': True, 'detail': '; '.join(probs[:3])}
+        return {'reproduced': False, 'detail': 'agrees with numpy on empty arrays'}
     n = int(fx['n'])
     if n > 5000:
         return {'reproduced': False, 'skip': True, 'detail': 'too large'}
@@ -224,7 +293,7 @@ def replay_access(cex, d):
                 elif werr is None:
                     ref[...] = tmpref
         if fx['ctx']:
-            with a.open_array(accessmode='r+'):
+            with a.open_array():
                 one(0, fx['acc'][0])
                 one(1, fx['acc'][1])
         else:
@@ -263,7 +332,10 @@ def obligations(tier):
             for ctx in (False, True):
                 splits.append(dict(acc=(a, b), atom=at, numtype='float32' if i % 2 else 'int16',
                                    bo='big' if i % 3 else 'little', ctx=ctx, _must=('end',)))
-    return [Ob('IDX', 'h_access', splits=splits, timeout=T, replay='replay_access',
+    empties = [dict(atom=at, ctx=c) for at in [(), (2,)] for c in (False, True)]
+    return [Ob('IDX-empty', 'h_empty', splits=empties, timeout=T, replay='replay_access', sym='valid, vok, k, probe',
+               bounds='arrays without elements (1-D and 2-D), opaque index / value tokens, inside and outside a default-mode context'),
+            Ob('IDX', 'h_access', splits=splits, timeout=T, replay='replay_access',
                sym='n, valid1, valid2, vok, s0, s1, k, ctx, probe',
                bounds='n>=1 unbounded; sequences of 2 accesses from {read/write with an opaque index token of symbolic '
                       'validity, read/write with first-axis slice s0:s1 (any ints), read with int s0 (any int)}, inside or '
